@@ -20,7 +20,7 @@ for d in sorted(glob.glob('/verif/seeded/C*')):
     detected = [c for c, rc, n, _ in checks if rc == '1' and int(n) > 0]
     baseline_timeouts = {'test_div_extension','test_cyclic_recursion','test_recursive_recursive_verifier','test_recursive_verifier','test_recursive_verifier_one_lookup'}
     rerun_passed = set((grab(r'rerun of tests that timed out under load: .*?passed: (.*)') or '').split())
-    extra_fail = [f for f in (fails or '').split() if f.split('::')[-1] not in baseline_timeouts and f != 'none' and f not in rerun_passed]
+    extra_fail = [f for f in (fails or '').split() if f.split('::')[-1] not in baseline_timeouts and f != 'none' and f not in rerun_passed and f.split('::')[-1] not in rerun_passed]
     meta = {
         'property': sid[:3],
         'breaks': am.get('summary') or am.get('property'),
